@@ -763,7 +763,7 @@ FitResult run_fit(const FitProblem &p, std::unique_ptr<photospline::splinetable<
 	for (uint32_t dd = 0; dd < p.ndim; dd++) data.ranges[dd] = (unsigned)p.coords[dd].size();
 	std::unique_ptr<photospline::splinetable<>> t(new photospline::splinetable<>());
 	try {
-		t->fit(data, p.weights, p.coords, p.order, p.knots, p.smoothing, p.porder, p.monodim, false);
+		t->fit(data, p.weights, p.coords, p.order, p.knots, p.smoothing, p.porder, p.monodim, getenv("PSV_VERBOSE") != nullptr);
 		fr.ok = true;
 		fr.coef.assign(t->get_coefficients(), t->get_coefficients() + t->get_ncoeffs());
 		for (uint32_t dd = 0; dd < p.ndim; dd++) { fr.naxes.push_back(t->get_ncoeffs(dd)); fr.strides.push_back(t->get_stride(dd)); }
@@ -908,7 +908,10 @@ struct SchedHarness : Harness {
 			prob["sparse"] = Json(sparse ? 0.3 : 0.0);
 			// per-dimension smoothing (some dimensions unpenalised), coarse axis units, identical grids in all
 			// dimensions: configurations in which the change of basis of the monotonic dimension can go wrong
-			if (!sparse && smooth > 0 && gen.chance(0.4)) {
+			// (only up to 1e3: a 1e6 penalty that leaves other dimensions unpenalised makes principal sub-matrices
+			// of the normal equations numerically singular - CHOLMOD reports "not positive definite" - which is
+			// outside the positive-definite systems the solver is specified for)
+			if (!sparse && smooth > 0 && smooth <= 1e3 && gen.chance(0.4)) {
 				Json sv = Json::array();
 				bool any = false;
 				for (int i = 0; i < ndim; i++) { bool on = gen.chance(0.5); any = any || on; sv.push(Json(on ? smooth : 0.0)); }
